@@ -84,7 +84,8 @@ Section Entry.
   Definition first_create_event (l : list event) : option event :=
     match filter is_create l with e :: _ => Some e | [] => None end.
 
-  Definition reverse_topological_ordering (ver : bytes) (by_auth : bool) (input : list event) : list event :=
+  Definition reverse_topological_ordering (ver : bytes) (by_auth : bool) (input0 : list event) : list event :=
+    let input := dedup_events input0 in   (* uniqueEvents: repeated entries are dropped first *)
     if by_auth
     then power_order shP (priv_of_version ver) gen_creator_power_level users_default0
                      [] (first_create_event input) input
